@@ -3,7 +3,20 @@
 //! Real code under simulation: rink_core::eval (helpers.rs), Context,
 //! the parser and evaluator, on the bundled definitions + currency snapshot.
 //! Simulated: the wall clock (`Context::update_time` seam), the history
-//! driver and the per-step reference model.
+//! driver and the reference model.
+//!
+//! Three things are compared with the context under test ("live"):
+//!  1. a small model of `ans`, clock and settings (pure bookkeeping, independent
+//!     of rink): catches wrong storing/clearing of `ans`, a stale clock, changed
+//!     settings;
+//!  2. an in-process reference context driven through the same `rink_core::eval`
+//!     with `ans`, flag and clock preset from the model before every query:
+//!     catches replies that depend on anything else the live context carries;
+//!  3. a brand-new OS process that evaluates only a seeded *subset* of the
+//!     history on one fresh context (again with `ans` preset from the model):
+//!     catches state that leaks between queries outside the context — a cache
+//!     behind a shared reference, a thread-local, a static — which 2. cannot
+//!     see because the reference follows the same history in the same process.
 
 use chrono::{DateTime, Local, TimeZone};
 use rink_core::output::{QueryError, QueryReply};
@@ -34,10 +47,9 @@ pub struct Scenario {
     pub steps: Vec<Step>,
     /// Compare a full Debug dump of the context with a pristine one afterwards.
     pub deep_check: bool,
-    /// Also evaluate the k-th query (modulo their number) on a context that has
-    /// never evaluated anything, and compare.
+    /// Per step: include this query in the subset evaluated by a fresh process.
     #[serde(default)]
-    pub probe_step: Option<u32>,
+    pub probe: Vec<bool>,
 }
 
 static CURRENCY_SNAPSHOT: &str = include_str!(concat!(
@@ -83,7 +95,9 @@ thread_local! {
     static STATE: RefCell<Option<WorkerState>> = const { RefCell::new(None) };
 }
 
-fn render(r: &Result<QueryReply, QueryError>) -> (serde_json::Value, String) {
+type Rendered = (serde_json::Value, String);
+
+fn render(r: &Result<QueryReply, QueryError>) -> Rendered {
     match r {
         Ok(v) => (
             serde_json::json!({"ok": serde_json::to_value(v).unwrap()}),
@@ -111,6 +125,25 @@ fn short(s: &str) -> String {
     } else {
         s
     }
+}
+
+/// The frontend entry point on a context whose carried state is preset: this
+/// is "the reply a fresh context would give for the same previous answer"
+/// provided nothing but `ans`, flag and clock is carried by the context.
+fn eval_preset(
+    ctx: &mut Context,
+    alt: &Option<Number>,
+    flag: bool,
+    now: DateTime<Local>,
+    line: &str,
+) -> Result<QueryReply, QueryError> {
+    ctx.previous_result = alt.clone();
+    ctx.save_previous_result = flag;
+    ctx.use_humanize = true;
+    Context::sim_set_clock(Some(now));
+    let r = rink_core::eval(ctx, line);
+    Context::sim_set_clock(None);
+    r
 }
 
 /// What `ans` may hold after a query that was answered with `got`, given that
@@ -148,46 +181,28 @@ fn after(
     }
 }
 
-/// Evaluate `query` on `ctx` (touched only through `&self` and two public
-/// fields) once per alternative of the model, and return the alternatives whose
-/// reply equals the observed one, each mapped to what `ans` may be afterwards,
-/// plus all expected texts.
-#[allow(clippy::too_many_arguments)]
-fn judge(
-    ctx: &mut Context,
-    model: &[Option<Number>],
-    query: &Query,
-    now: DateTime<Local>,
+// ----- fresh-process evaluation -------------------------------------------------
+
+#[derive(Serialize, Deserialize, Clone)]
+struct ProbeItem {
+    /// Each alternative of the model in the form `Number`'s derived
+    /// `Deserialize` accepts (its `Serialize` goes through a display-oriented
+    /// form that does not round-trip), or null.
+    alts: Vec<serde_json::Value>,
+    now_ms: i64,
     flag: bool,
-    plain: bool,
-    got: &Result<QueryReply, QueryError>,
-    got_json: &serde_json::Value,
-    got_text: &str,
-) -> (Vec<(Option<Number>, bool)>, Vec<String>) {
-    let mut matched: Vec<(Option<Number>, bool)> = Vec::new();
-    let mut expected_texts = Vec::new();
-    for alt in model {
-        ctx.previous_result = alt.clone();
-        ctx.set_time(now);
-        let want = ctx.eval_query(query);
-        let (want_json, want_text) = render(&want);
-        if want_json == *got_json && want_text == got_text {
-            matched.extend(after(alt, got, flag, plain));
-        }
-        expected_texts.push(want_text);
-    }
-    ctx.previous_result = None;
-    (matched, expected_texts)
+    line: String,
 }
 
 #[derive(Serialize, Deserialize)]
 struct ProbeRequest {
-    /// Each alternative in the form `Number`'s derived `Deserialize` accepts
-    /// (its `Serialize` goes through a display-oriented form that does not
-    /// round-trip), or null.
-    alts: Vec<serde_json::Value>,
-    now_ms: i64,
-    line: String,
+    items: Vec<ProbeItem>,
+}
+
+#[derive(Serialize, Deserialize)]
+struct ProbeReply {
+    /// Per item, per alternative.
+    replies: Vec<Vec<Rendered>>,
 }
 
 fn wire(n: &Option<Number>) -> Option<serde_json::Value> {
@@ -197,21 +212,34 @@ fn wire(n: &Option<Number>) -> Option<serde_json::Value> {
         Some(n) => {
             let value = match &n.value {
                 Numeric::Rational(r) => serde_json::json!({ "Rational": r }),
-                Numeric::Float(f) if f.is_finite() => serde_json::json!({ "Float": f }),
-                Numeric::Float(_) => return None,
+                // Bit pattern, not a decimal: serde_json's default float parsing
+                // may be off by one ulp, which would change the value under test.
+                Numeric::Float(f) => serde_json::json!({ "FloatBits": f.to_bits() }),
             };
             Some(serde_json::json!({ "value": value, "unit": n.unit }))
         }
     }
 }
 
-#[derive(Serialize, Deserialize)]
-struct ProbeReply {
-    replies: Vec<(serde_json::Value, String)>,
+fn unwire(v: &serde_json::Value) -> Result<Option<Number>, ()> {
+    use rink_core::types::{BigRat, Dimensionality, Numeric};
+    if v.is_null() {
+        return Ok(None);
+    }
+    let unit: Dimensionality = serde_json::from_value(v.get("unit").ok_or(())?.clone()).map_err(|_| ())?;
+    let value = v.get("value").ok_or(())?;
+    let value = if let Some(r) = value.get("Rational") {
+        let r: BigRat = serde_json::from_value(r.clone()).map_err(|_| ())?;
+        Numeric::Rational(r)
+    } else {
+        let bits = value.get("FloatBits").and_then(|b| b.as_u64()).ok_or(())?;
+        Numeric::Float(f64::from_bits(bits))
+    };
+    Ok(Some(Number { value, unit }))
 }
 
-/// `h-history C15 probe`: one request on stdin, one reply on stdout, from a
-/// context built in this brand-new process.
+/// `h-history C15 probe`: one request on stdin, one reply on stdout. All items
+/// are evaluated in order on ONE context built in this brand-new process.
 pub fn probe_main() -> i32 {
     let mut input = String::new();
     if std::io::Read::read_to_string(&mut std::io::stdin(), &mut input).is_err() {
@@ -221,36 +249,32 @@ pub fn probe_main() -> i32 {
         Ok(r) => r,
         Err(_) => return 2,
     };
+    let mut ctx = fresh_context();
     let mut replies = Vec::new();
-    for alt in &req.alts {
-        let alt: Option<Number> = if alt.is_null() {
-            None
-        } else {
-            match serde_json::from_value(alt.clone()) {
-                Ok(n) => Some(n),
-                Err(_) => return 2,
-            }
-        };
-        // A new context for every alternative: nothing has been evaluated on it.
-        let mut ctx = fresh_context();
-        ctx.previous_result = alt;
-        ctx.set_time(at(req.now_ms));
-        let mut iter = text_query::TokenIterator::new(req.line.trim()).peekable();
-        let query = text_query::parse_query(&mut iter);
-        replies.push(render(&ctx.eval_query(&query)));
+    for item in &req.items {
+        let mut per_alt = Vec::new();
+        for alt in &item.alts {
+            let alt: Option<Number> = match unwire(alt) {
+                Ok(n) => n,
+                Err(()) => return 2,
+            };
+            per_alt.push(render(&eval_preset(
+                &mut ctx,
+                &alt,
+                item.flag,
+                at(item.now_ms),
+                &item.line,
+            )));
+        }
+        replies.push(per_alt);
     }
     println!("{}", serde_json::to_string(&ProbeReply { replies }).unwrap());
     0
 }
 
-/// The reply of a *fresh process* (fresh context, fresh statics and
-/// thread-locals) for each alternative of the model. None: the helper process
-/// could not be run (the caller falls back to an in-process fresh context).
-fn pristine_process_eval(
-    model: &[Option<Number>],
-    now_ms: i64,
-    line: &str,
-) -> Option<Vec<(serde_json::Value, String)>> {
+/// Replies of a *fresh process* (fresh context, fresh statics and
+/// thread-locals). None: the helper process could not be run.
+fn fresh_process_eval(items: &[ProbeItem]) -> Option<Vec<Vec<Rendered>>> {
     use std::io::Write;
     use std::process::{Command, Stdio};
     let exe = std::env::current_exe().ok()?;
@@ -264,9 +288,7 @@ fn pristine_process_eval(
         .spawn()
         .ok()?;
     let req = ProbeRequest {
-        alts: model.iter().map(wire).collect::<Option<Vec<_>>>()?,
-        now_ms,
-        line: line.to_string(),
+        items: items.to_vec(),
     };
     child
         .stdin
@@ -278,50 +300,84 @@ fn pristine_process_eval(
         return None;
     }
     let rep: ProbeReply = serde_json::from_slice(&out.stdout).ok()?;
-    if rep.replies.len() != model.len() {
+    if rep.replies.len() != items.len() {
         return None;
     }
     Some(rep.replies)
 }
 
-/// Judge the observed reply against a pristine evaluation: a fresh process if
-/// possible, else a fresh in-process context.
-#[allow(clippy::too_many_arguments)]
-fn judge_pristine(
-    model: &[Option<Number>],
-    query: &Query,
-    line: &str,
-    now: DateTime<Local>,
-    now_ms: i64,
-    flag: bool,
-    plain: bool,
-    got: &Result<QueryReply, QueryError>,
-    got_json: &serde_json::Value,
-    got_text: &str,
-    bump: &dyn Fn(&str),
-) -> (Vec<(Option<Number>, bool)>, Vec<String>) {
-    match pristine_process_eval(model, now_ms, line) {
-        Some(replies) => {
-            bump("pristine_eval_in_fresh_process");
-            let mut matched = Vec::new();
-            let mut texts = Vec::new();
-            for (alt, (j, t)) in model.iter().zip(replies.into_iter()) {
-                if j == *got_json && t == got_text {
-                    matched.extend(after(alt, got, flag, plain));
-                }
-                texts.push(t);
-            }
-            (matched, texts)
-        }
-        None => {
-            bump("pristine_eval_in_process_fallback");
-            let mut p = fresh_context();
-            judge(&mut p, model, query, now, flag, plain, got, got_json, got_text)
-        }
-    }
+#[derive(Serialize, Deserialize)]
+struct OneRun {
+    violation: Option<Violation>,
+    history: Vec<String>,
+    digest: u64,
+    stats: BTreeMap<String, u64>,
 }
 
-fn run_history(sc: &Scenario, fresh_reference: bool) -> (Option<Violation>, Vec<String>, u64, BTreeMap<String, u64>) {
+/// `h-history C15 run-one`: a scenario on stdin, its outcome on stdout.
+pub fn run_one_main() -> i32 {
+    let mut input = String::new();
+    if std::io::Read::read_to_string(&mut std::io::stdin(), &mut input).is_err() {
+        return 2;
+    }
+    let sc: Scenario = match serde_json::from_str(&input) {
+        Ok(s) => s,
+        Err(_) => return 2,
+    };
+    let (violation, history, digest, stats) = run_history(&sc, true);
+    println!(
+        "{}",
+        serde_json::to_string(&OneRun {
+            violation,
+            history,
+            digest,
+            stats
+        })
+        .unwrap()
+    );
+    0
+}
+
+#[allow(clippy::type_complexity)]
+fn run_one_in_fresh_process(
+    sc: &Scenario,
+) -> Option<(Option<Violation>, Vec<String>, u64, BTreeMap<String, u64>)> {
+    use std::io::Write;
+    use std::process::{Command, Stdio};
+    let exe = std::env::current_exe().ok()?;
+    let mut child = Command::new(exe)
+        .args(["C15", "run-one"])
+        .env("TZ", "UTC")
+        .env("RUST_BACKTRACE", "0")
+        .stdin(Stdio::piped())
+        .stdout(Stdio::piped())
+        .stderr(Stdio::null())
+        .spawn()
+        .ok()?;
+    child
+        .stdin
+        .take()?
+        .write_all(serde_json::to_string(sc).ok()?.as_bytes())
+        .ok()?;
+    let out = child.wait_with_output().ok()?;
+    if !out.status.success() {
+        return None;
+    }
+    let r: OneRun = serde_json::from_slice(&out.stdout).ok()?;
+    Some((r.violation, r.history, r.digest, r.stats))
+}
+
+/// One observed query, kept for the subset probe.
+struct Seen {
+    step: usize,
+    item: Option<ProbeItem>,
+    got: Rendered,
+}
+
+fn run_history(
+    sc: &Scenario,
+    fresh_reference: bool,
+) -> (Option<Violation>, Vec<String>, u64, BTreeMap<String, u64>) {
     let stats: RefCell<BTreeMap<String, u64>> = RefCell::new(BTreeMap::new());
     let bump = |k: &str| *stats.borrow_mut().entry(k.to_string()).or_insert(0) += 1;
     let (violation, history, digest) = STATE.with(|st| {
@@ -358,17 +414,7 @@ fn run_history(sc: &Scenario, fresh_reference: bool) -> (Option<Violation>, Vec<
         let mut history = Vec::new();
         let mut digest = Fnv::default();
         let mut violation: Option<Violation> = None;
-        let query_steps: Vec<usize> = sc
-            .steps
-            .iter()
-            .enumerate()
-            .filter(|(_, s)| matches!(s, Step::Query(_)))
-            .map(|(i, _)| i)
-            .collect();
-        let probe_at: Option<usize> = match sc.probe_step {
-            Some(k) if !query_steps.is_empty() => Some(query_steps[k as usize % query_steps.len()]),
-            _ => None,
-        };
+        let mut seen: Vec<Seen> = Vec::new();
 
         for (i, step) in sc.steps.iter().enumerate() {
             match step {
@@ -395,50 +441,68 @@ fn run_history(sc: &Scenario, fresh_reference: bool) -> (Option<Violation>, Vec<
                     let (got_json, got_text) = render(&got);
                     digest.str(&got_text);
 
-                    // Reference: the reply a fresh context gives for the same previous answer.
                     let mut iter = text_query::TokenIterator::new(line.trim()).peekable();
                     let query = text_query::parse_query(&mut iter);
                     let plain = matches!(query, Query::Expr(_));
-                    let (mut matched, mut expected_texts) =
-                        judge(reference, &model, &query, now, flag, plain, &got, &got_json, &got_text);
+
+                    // 2. in-process reference, same entry point, state preset from the model
+                    let mut matched: Vec<(Option<Number>, bool)> = Vec::new();
+                    let mut expected_texts = Vec::new();
+                    for alt in &model {
+                        let want = eval_preset(reference, alt, flag, now, line);
+                        let (want_json, want_text) = render(&want);
+                        if want_json == got_json && want_text == got_text {
+                            matched.extend(after(alt, &got, flag, plain));
+                        }
+                        expected_texts.push(want_text);
+                    }
+                    reference.previous_result = None;
+                    let item = model
+                        .iter()
+                        .map(wire)
+                        .collect::<Option<Vec<_>>>()
+                        .map(|alts| ProbeItem {
+                            alts,
+                            now_ms,
+                            flag,
+                            line: line.clone(),
+                        });
+                    if matched.is_empty() {
+                        // The shared reference disagrees. Arbitrate with a fresh process
+                        // (or, failing that, a fresh in-process context): only that makes
+                        // the verdict a pure function of this history.
+                        bump("arbitrated_with_pristine_context");
+                        let replies: Vec<Rendered> = match item.as_ref().and_then(|it| fresh_process_eval(&[it.clone()])) {
+                            Some(mut r) => {
+                                bump("pristine_eval_in_fresh_process");
+                                r.remove(0)
+                            }
+                            None => {
+                                bump("pristine_eval_in_process_fallback");
+                                let mut p = fresh_context();
+                                model
+                                    .iter()
+                                    .map(|alt| render(&eval_preset(&mut p, alt, flag, now, line)))
+                                    .collect()
+                            }
+                        };
+                        expected_texts = replies.iter().map(|r| r.1.clone()).collect();
+                        for (alt, (j, t)) in model.iter().zip(replies.iter()) {
+                            if *j == got_json && *t == got_text {
+                                matched.extend(after(alt, &got, flag, plain));
+                            }
+                        }
+                        if !matched.is_empty() {
+                            // The reference had drifted (state leaked in an earlier
+                            // history); replace it and go on with the pristine verdict.
+                            bump("shared_reference_had_drifted");
+                            *reference = fresh_context();
+                        }
+                    }
                     if matched.iter().any(|(_, d)| *d) {
                         bump("duration_reply_both_accepted");
                     }
-                    if matched.is_empty() {
-                        // The shared reference disagrees. Arbitrate with a context that has
-                        // never evaluated anything: only that makes the verdict a pure
-                        // function of this history.
-                        bump("arbitrated_with_pristine_context");
-                        let (m2, e2) = judge_pristine(
-                            &model, &query, line, now, now_ms, flag, plain, &got, &got_json, &got_text, &bump,
-                        );
-                        if m2.is_empty() {
-                            expected_texts = e2;
-                        } else {
-                            // The reference had drifted (state leaked through &self in an
-                            // earlier history); replace it and go on with the pristine verdict.
-                            bump("shared_reference_had_drifted");
-                            *reference = fresh_context();
-                            matched = m2;
-                        }
-                    }
-                    if !matched.is_empty() && probe_at == Some(i) {
-                        // Pristine probe: the same query in a brand-new process (fresh
-                        // context, fresh statics and thread-locals). State that leaks
-                        // between queries through shared references, a thread-local or a
-                        // static (a cache, a memo) shows here even when the in-process
-                        // reference context leaks in exactly the same way.
-                        bump("pristine_probe");
-                        let (m3, e3) = judge_pristine(
-                            &model, &query, line, now, now_ms, flag, plain, &got, &got_json, &got_text, &bump,
-                        );
-                        if m3.is_empty() {
-                            matched.clear();
-                            expected_texts = e3;
-                        }
-                    }
                     let matched: Vec<Option<Number>> = matched.into_iter().map(|(m, _)| m).collect();
-                    reference.previous_result = None;
                     match &got {
                         Ok(QueryReply::Number(_)) => bump("reply_number"),
                         Ok(QueryReply::Date(_)) => bump("reply_date"),
@@ -458,9 +522,10 @@ fn run_history(sc: &Scenario, fresh_reference: bool) -> (Option<Violation>, Vec<
                         }
                     }
                     history.push(format!(
-                        "#{} [{}] {:?} -> {}",
+                        "#{} [{}]{} {:?} -> {}",
                         i,
                         if flag { "ans on" } else { "ans off" },
+                        if sc.probe.get(i).copied().unwrap_or(false) { " [in fresh-process subset]" } else { "" },
                         line,
                         short(&got_text)
                     ));
@@ -479,6 +544,11 @@ fn run_history(sc: &Scenario, fresh_reference: bool) -> (Option<Violation>, Vec<
                         });
                         break;
                     }
+                    seen.push(Seen {
+                        step: i,
+                        item,
+                        got: (got_json, got_text),
+                    });
                     // dedupe
                     let mut next: Vec<Option<Number>> = Vec::new();
                     for m in matched {
@@ -486,7 +556,7 @@ fn run_history(sc: &Scenario, fresh_reference: bool) -> (Option<Violation>, Vec<
                             next.push(m);
                         }
                     }
-                    // The stored previous result must be one the model allows.
+                    // 1. the stored previous result must be one the model allows
                     if !next.iter().any(|m| *m == live.previous_result) {
                         violation = Some(Violation {
                             clause: "ans-state-wrong".into(),
@@ -517,16 +587,57 @@ fn run_history(sc: &Scenario, fresh_reference: bool) -> (Option<Violation>, Vec<
                     if live.save_previous_result != flag || !live.use_humanize {
                         violation = Some(Violation {
                             clause: "settings-changed".into(),
-                            detail: format!("step {} {:?} changed the context's settings", i, line),
+                            detail: format!(
+                                "step {} {:?} changed the context's settings (save_previous_result {} -> {}, use_humanize true -> {})",
+                                i, line, flag, live.save_previous_result, live.use_humanize
+                            ),
                         });
                         break;
                     }
                 }
             }
         }
-        // VERIF_C15_NO_DUMP=1 (experiments only): skip the dump comparison to see
-        // what the per-step checks catch on their own.
-        if violation.is_none() && sc.deep_check && std::env::var_os("VERIF_C15_NO_DUMP").is_none() {
+        // 3. the subset probe in a fresh process
+        if violation.is_none() {
+            let subset: Vec<&Seen> = seen
+                .iter()
+                .filter(|s| sc.probe.get(s.step).copied().unwrap_or(false) && s.item.is_some())
+                .collect();
+            if !subset.is_empty() {
+                bump("fresh_process_subset_probe");
+                let items: Vec<ProbeItem> = subset.iter().map(|s| s.item.clone().unwrap()).collect();
+                match fresh_process_eval(&items) {
+                    Some(replies) => {
+                        for _ in 0..items.len() {
+                            bump("queries_checked_in_fresh_process");
+                        }
+                        for (s, per_alt) in subset.iter().zip(replies.iter()) {
+                            if !per_alt.iter().any(|(j, t)| *j == s.got.0 && *t == s.got.1) {
+                                violation = Some(Violation {
+                                    clause: "reply-differs-from-fresh-context".into(),
+                                    detail: format!(
+                                        "step {} {:?}: replied {:?}; a brand-new process that evaluated only steps {:?} of this history (same previous answer, flag and clock) replies {:?}",
+                                        s.step,
+                                        s.item.as_ref().unwrap().line,
+                                        short(&s.got.1),
+                                        subset.iter().map(|x| x.step).collect::<Vec<_>>(),
+                                        per_alt.iter().map(|r| short(&r.1)).collect::<Vec<_>>()
+                                    ),
+                                });
+                                break;
+                            }
+                        }
+                    }
+                    None => bump("fresh_process_unavailable"),
+                }
+            }
+        }
+        if violation.is_none()
+            && sc.deep_check
+            && std::env::var_os("VERIF_C15_NO_DUMP").is_none()
+        {
+            // VERIF_C15_NO_DUMP=1 (experiments only) skips this comparison to see
+            // what the other checks catch on their own.
             bump("deep_check");
             let d = dump_hash(&mut live);
             if d != st.pristine_dump {
@@ -551,7 +662,14 @@ fn uniq(rng: &mut Rng, i: usize) -> u64 {
     (i as u64 + 1) * 1000 + rng.below(900) + 1
 }
 
-fn gen_query(rng: &mut Rng, i: usize, weights: &[u64; 10]) -> String {
+/// Identifiers shared by several query kinds, so that different code paths
+/// (evaluation, error suggestions, search, units-for, conversions) meet the
+/// same names within one history.
+const WORDS: [&str; 10] = [
+    "kilogarm", "metre5", "feets", "asdfqwer", "secnod", "speed", "foot", "energy", "gold", "USD",
+];
+
+fn gen_query(rng: &mut Rng, i: usize, weights: &[u64; 11]) -> String {
     let n = uniq(rng, i);
     let m = 2 + rng.below(17);
     match rng.weighted(weights) {
@@ -611,13 +729,15 @@ fn gen_query(rng: &mut Rng, i: usize, weights: &[u64; 10]) -> String {
         .to_string(),
         // substances
         5 => (*rng.pick(&["water", "density of water", "gold", "molar_mass of gold", "air"])).to_string(),
-        // date results
-        6 => match rng.below(6) {
+        // date results and timezone conversions
+        6 => match rng.below(8) {
             0 => "now".to_string(),
             1 => format!("now + {} hour", m),
             2 => "#2020-01-01# - now".to_string(),
             3 => "#jan 01, 1970#".to_string(),
             4 => "now -> \"US/Pacific\"".to_string(),
+            5 => "#2000-01-01# -> UTC".to_string(),
+            6 => "#2000-01-01#".to_string(),
             _ => format!("now - {} day", m),
         },
         // results in seconds
@@ -630,7 +750,6 @@ fn gen_query(rng: &mut Rng, i: usize, weights: &[u64; 10]) -> String {
         // failing queries of each class
         8 => (*rng.pick(&[
             "1 +",
-            "asdfqwer",
             "1 m + 1 s",
             "1/0",
             "",
@@ -640,10 +759,36 @@ fn gen_query(rng: &mut Rng, i: usize, weights: &[u64; 10]) -> String {
             "ans ans ans ->",
             "sqrt(1 m)",
             "1 ->",
+            "5 m -> UTC",
+            "5 m -> \"US/Pacific\"",
+            "3 kg -> +05:00",
+            "#2000-13-45#",
         ]))
         .to_string(),
         // things that look like `ans` but are not
-        _ => (*rng.pick(&["answer", "ans_", "_ans", "Ans", "anshin", "__"])).to_string(),
+        9 => (*rng.pick(&["answer", "ans_", "_ans", "Ans", "anshin", "__"])).to_string(),
+        // one shared identifier through different kinds of query
+        _ => {
+            let w = *rng.pick(&WORDS);
+            match rng.below(8) {
+                0 => w.to_string(),
+                1 => format!("{} {}", m, w),
+                2 => format!("search {}", w),
+                3 => format!("units for {}", w),
+                4 => format!("{} m -> {}", m, w),
+                5 => format!("{} {} -> m", m, w),
+                6 => format!("{} of {}", w, w),
+                _ => format!("1 / {}", w),
+            }
+        }
+    }
+}
+
+#[allow(dead_code)]
+fn remove_step(c: &mut Scenario, i: usize) {
+    c.steps.remove(i);
+    if i < c.probe.len() {
+        c.probe.remove(i);
     }
 }
 
@@ -668,7 +813,7 @@ impl Harness for C15 {
     }
 
     fn generate(&self, rng: &mut Rng, tier: Tier, _index: u64) -> Scenario {
-        let mut weights = [5u64, 5, 3, 2, 1, 1, 2, 2, 3, 1];
+        let mut weights = [5u64, 5, 3, 2, 1, 1, 2, 2, 3, 1, 4];
         for w in weights.iter_mut() {
             if rng.chance(1, 5) {
                 *w = 0;
@@ -706,24 +851,52 @@ impl Harness for C15 {
             }
             steps.push(Step::Query(gen_query(rng, i, &weights)));
         }
+        // The fresh-process subset: each query with probability 1/3, and always
+        // the last one (leaked state needs earlier queries to exist); 3 histories in 4.
+        let mut probe = vec![false; steps.len()];
+        if rng.chance(3, 4) {
+            let mut last_q = None;
+            for (i, s) in steps.iter().enumerate() {
+                if matches!(s, Step::Query(_)) {
+                    probe[i] = rng.chance(1, 3);
+                    last_q = Some(i);
+                }
+            }
+            if let Some(i) = last_q {
+                probe[i] = true;
+            }
+        }
         Scenario {
             start_ms: *rng.pick(&[1_470_166_240_000i64, 1_700_000_000_123, 946_684_799_999, 4_102_444_800_000]),
             flag_at_start: !rng.chance(1, 5),
             steps,
             deep_check: rng.chance(1, 8),
-            // Biased to late steps: leaked state needs earlier queries to exist.
-            probe_step: if rng.chance(3, 4) {
-                let nq = n as u32;
-                Some(if rng.chance(1, 2) { nq - 1 } else { rng.below(nq as u64) as u32 })
-            } else {
-                None
-            },
+            probe,
         }
     }
 
     fn execute(&self, sc: &Scenario, chooser: Chooser, _keep_log: bool) -> Outcome {
-        let (violation, history, digest, stats) = run_history(sc, chooser.is_replay());
+        // Generated runs execute in the worker process (fast). Replays - the
+        // minimiser's candidates, `--replay`, the determinism self-test - run in a
+        // brand-new process, so that a replay file reproduces on its own even when
+        // the violation involves state that lives in the process (a thread-local
+        // or static) rather than in the context.
+        let (violation, history, digest, mut stats) = if chooser.is_replay() {
+            match run_one_in_fresh_process(sc) {
+                Some(r) => r,
+                None => {
+                    let mut r = run_history(sc, true);
+                    *r.3.entry("replay_in_process_fallback".to_string()).or_insert(0) += 1;
+                    r
+                }
+            }
+        } else {
+            run_history(sc, false)
+        };
         let nontrivial = sc.steps.iter().filter(|s| matches!(s, Step::Query(_))).count() > 1;
+        if sc.steps.len() > 100 {
+            *stats.entry("combined_history".to_string()).or_insert(0) += 1;
+        }
         Outcome {
             violation,
             digest,
@@ -740,26 +913,85 @@ impl Harness for C15 {
                     .sum();
                 (total as u64).saturating_mul(1_000_000)
             },
-            history,
+            history: if history.len() > 60 {
+                let mut h = history[..10].to_vec();
+                h.push(format!("... {} more ...", history.len() - 40));
+                h.extend_from_slice(&history[history.len() - 30..]);
+                h
+            } else {
+                history
+            },
             nontrivial,
             log: Vec::new(),
         }
     }
 
+    fn combine(&self, earlier: &[Scenario], current: &Scenario) -> Option<Scenario> {
+        // One history: the earlier ones back to back (each starting with its own
+        // flag), then the current one at its own clock and with its own subset.
+        let first = earlier.first().unwrap_or(current);
+        let mut steps = Vec::new();
+        let mut probe = Vec::new();
+        let mut now = first.start_ms;
+        for sc in earlier.iter().chain(std::iter::once(current)) {
+            let is_current = std::ptr::eq(sc, current);
+            steps.push(Step::Flag(sc.flag_at_start));
+            probe.push(false);
+            if is_current && sc.start_ms != now {
+                steps.push(Step::Clock(sc.start_ms - now));
+                probe.push(false);
+                now = sc.start_ms;
+            }
+            for (i, st) in sc.steps.iter().enumerate() {
+                if let Step::Clock(d) = st {
+                    now += *d;
+                }
+                steps.push(st.clone());
+                probe.push(is_current && sc.probe.get(i).copied().unwrap_or(false));
+            }
+        }
+        Some(Scenario {
+            start_ms: first.start_ms,
+            flag_at_start: first.flag_at_start,
+            steps,
+            deep_check: current.deep_check,
+            probe,
+        })
+    }
+
     fn shrink(&self, sc: &Scenario) -> Vec<Scenario> {
         let mut out = Vec::new();
-        if sc.steps.len() > 1 {
-            if sc.steps.len() > 8 {
-                let mut c = sc.clone();
-                c.steps.truncate(sc.steps.len() / 2);
-                out.push(c);
-                let mut c = sc.clone();
-                c.steps.drain(..sc.steps.len() / 2);
-                out.push(c);
+        // Delta-debugging order: remove chunks of n/2, n/4, ... steps, then single steps.
+        let n = sc.steps.len();
+        if n > 1 {
+            let mut chunk = n / 2;
+            while chunk >= 1 {
+                let mut start = 0;
+                while start < n {
+                    let end = (start + chunk).min(n);
+                    if end - start < n {
+                        let mut c = sc.clone();
+                        c.steps.drain(start..end);
+                        if c.probe.len() >= end {
+                            c.probe.drain(start..end);
+                        } else {
+                            c.probe.clear();
+                        }
+                        out.push(c);
+                    }
+                    start = end;
+                }
+                if chunk == 1 {
+                    break;
+                }
+                chunk /= 2;
             }
-            for i in 0..sc.steps.len() {
+        }
+        // fewer steps in the fresh-process subset
+        for i in 0..sc.probe.len() {
+            if sc.probe[i] {
                 let mut c = sc.clone();
-                c.steps.remove(i);
+                c.probe[i] = false;
                 out.push(c);
             }
         }
@@ -788,11 +1020,6 @@ impl Harness for C15 {
             c.flag_at_start = true;
             out.push(c);
         }
-        if sc.probe_step.is_some() {
-            let mut c = sc.clone();
-            c.probe_step = None;
-            out.push(c);
-        }
         if sc.deep_check {
             let mut c = sc.clone();
             c.deep_check = false;
@@ -804,6 +1031,11 @@ impl Harness for C15 {
             out.push(c);
         }
         out
+    }
+
+    fn minimise_budget(&self) -> (u64, std::time::Duration) {
+        // Replays run in a fresh process (~0.1 s each).
+        (1500, std::time::Duration::from_secs(120))
     }
 
     fn key(&self, sc: &Scenario) -> String {
@@ -818,30 +1050,37 @@ impl Harness for C15 {
     }
 
     fn label(&self, sc: &Scenario) -> String {
-        if sc.deep_check {
-            "with-database-dump-check".into()
-        } else {
-            "per-step-checks".into()
-        }
+        format!(
+            "{}{}",
+            if sc.probe.iter().any(|p| *p) {
+                "with-fresh-process-subset"
+            } else {
+                "in-process-checks-only"
+            },
+            if sc.deep_check { "+database-dump" } else { "" }
+        )
     }
 
     fn rule(&self) -> String {
         "One evaluation = one seeded history of 1..16 (thorough: up to 60) queries on one fresh Context (bundled definitions + currency snapshot) \
          driven only through rink_core::eval under a virtual wall clock, interleaved with clock advances, backward clock jumps and toggles of \
          save_previous_result. Queries come from a per-history weighted pool: plain numeric expressions with unique values, uses of ans/ANS/_ in every \
-         operand position and as conversion source, conversions (unit, list, base, digits, temperature, currency), definition look-ups, units for / \
-         factorize / search, substances, date results, results in seconds, failing queries of each error class, the empty line, and names that merely \
-         resemble ans. After every query the reply (JSON and text) is compared with the reply of a separate context that is only touched through &self \
-         with previous_result preset from the model, and the stored previous result, clock and settings are compared with the model; in 3 histories of 4 \
-         one seeded query is also evaluated on a context that has never evaluated anything (pristine probe), a disagreement with the shared reference is \
-         arbitrated by such a context, and 1 history in 8 also compares a full Debug dump of the context with a pristine one. Non-trivial = at least two queries; distinct = distinct digest of (scenario, all replies)."
+         operand position and as conversion source, conversions (unit, list, base, digits, temperature, currency, timezone), definition look-ups, units for / \
+         factorize / search, substances, date results, results in seconds, failing queries of each error class, the empty line, names that merely \
+         resemble ans, and a small vocabulary of identifiers used through several query kinds. After every query the reply (JSON and text) is compared with \
+         the reply of an in-process reference context driven through the same entry point with ans, flag and clock preset from a model of ans, and the \
+         stored previous result, clock and settings are compared with the model; a disagreement is arbitrated by a brand-new process. In 3 histories of 4 a seeded \
+         subset of the queries (each with probability 1/3, always the last) is evaluated in order by a brand-new OS process on one fresh context with ans preset, \
+         and compared; 1 history in 8 also compares a full Debug dump of the context with a pristine one. Non-trivial = at least two queries; distinct = distinct \
+         digest of (scenario, all replies)."
             .into()
     }
 
     fn assumptions(&self) -> Vec<String> {
         vec![
-            "No concurrency or I/O exists here: the simulator contributes the clock seam, the history generator, the per-step reference model and replay/minimisation".into(),
-            "The reference context is rebuilt from text every 64 histories and for every replay; between rebuilds it is only touched through &self and two public fields".into(),
+            "No concurrency or I/O exists here: the simulator contributes the clock seam, the history generator, the reference model and replay/minimisation".into(),
+            "'Fresh context' is realised three ways: a model of ans/clock/settings; an in-process reference with its carried state preset before every query (rebuilt every 64 histories and for every replay); a brand-new process per history for a seeded subset of the queries".into(),
+            "State that leaks outside the context (thread-local, static) is only visible to the fresh-process subset, i.e. with the probability that the subset contains the affected query but not its cause".into(),
             "A reply in seconds (rendered as a duration breakdown) may or may not count as a 'numeric result': the model accepts both until the next use of ans disambiguates".into(),
             "Seeded sampling: a clean batch is evidence, not proof".into(),
         ]
@@ -869,21 +1108,15 @@ impl Harness for C15 {
             "clock_jump_back",
             "flag_toggle",
             "deep_check",
-            "pristine_probe",
+            "fresh_process_subset_probe",
+            "queries_checked_in_fresh_process",
             "duration_reply_both_accepted",
         ]
     }
 }
 
-/// Cost probe (debugging aid): ./target/release/h-history time
+/// Cost probe (debugging aid): ./target/release/h-history time x
 pub fn timing() {
-    let t = std::time::Instant::now();
-    let defs = rink_core::loader::gnu_units::parse_str(rink_core::DEFAULT_FILE.unwrap());
-    println!("parse definitions {:?}", t.elapsed());
-    let t = std::time::Instant::now();
-    let mut c2 = Context::new();
-    c2.load(defs).unwrap();
-    println!("load parsed defs {:?}", t.elapsed());
     let t = std::time::Instant::now();
     let mut ctx = rink_core::simple_context().unwrap();
     println!("simple_context {:?}", t.elapsed());
@@ -893,16 +1126,19 @@ pub fn timing() {
     let t = std::time::Instant::now();
     let d = dump_hash(&mut ctx);
     println!("dump_hash {:?} {:?}", t.elapsed(), d);
-    let t = std::time::Instant::now();
-    for _ in 0..100 {
-        let _ = rink_core::eval(&mut ctx, "3 foot + 2 inch -> meter");
-    }
-    println!("100 evals {:?}", t.elapsed());
-    for q in ["factorize velocity", "factorize acceleration", "factorize area", "units for length", "density of water", "molar_mass of gold", "air", "gold", "search spd"] {
+    let mut rng = Rng::new(1);
+    let w = [1u64; 11];
+    let mut worst: Vec<(u128, String)> = Vec::new();
+    for i in 0..3000 {
+        let q = gen_query(&mut rng, i % 16, &w);
         let t = std::time::Instant::now();
-        for _ in 0..10 {
-            let _ = rink_core::eval(&mut ctx, q);
-        }
-        println!("10 x {:?} {:?}", q, t.elapsed());
+        let _ = rink_core::eval(&mut ctx, &q);
+        worst.push((t.elapsed().as_micros(), q));
+    }
+    worst.sort();
+    worst.reverse();
+    worst.dedup_by(|a, b| a.1 == b.1);
+    for (us, q) in worst.iter().take(12) {
+        println!("{:>8} us  {:?}", us, q);
     }
 }
